@@ -1,7 +1,7 @@
 """C07 — Recorded provenance is complete and acyclic."""
 import copy
 
-from harness.lib.framework import Prop, coq_bool, coq_list, coq_N, coq_nat
+from harness.lib.framework import Prop, coq_bool, coq_list, coq_N, coq_nat, coq_str, coq_Z
 from harness.props import netlib
 
 
@@ -86,6 +86,55 @@ def emitted_expectations(case, o):
     return exp, problems
 
 
+
+def stepprov_terms(case, o):
+    """kind `stepprov`: for the step kinds that have an id-carrying model (Prov/Steps.v) — Transformer and always-emitting
+    ConditionalStep rounds, dot/cartesian combinators, depth-1 gathers — what the step recorded (the harness' log of its
+    _persist_token calls) next to what the model records on the same tokens.  Only for runs in which every step ran
+    to completion (no injected failure, no cancellation)."""
+    if o.get("ret") != "ok" or o.get("raised") or netlib.has_unobserved_sink(case):
+        return []
+    rows = {r[0]: r for r in o["tokens"]}
+    by_port = {}
+    for p, d in o["ports"].items():
+        ids = o["mem_ids"][p]
+        if any(i is None for i in ids):
+            return []
+        by_port[p] = [(t, v, i) for (t, v), i in zip(d["toks"], ids)]
+    terms = []
+    for s in case["steps"]:
+        k = s["k"]
+        if not s["outs"]:
+            continue
+        first_out = next(iter(s["outs"].values()))
+        rec = [(rows[r[2]][2], r[3]) for r in o["persisted"] if r[0] == s["n"] and r[1] == first_out and r[2] in rows]
+        if k == "xf" or (k == "cond" and s.get("skip", True)):
+            cols = [by_port[p] for p in s["ins"].values()]
+            n = min(len(c) for c in cols)
+            rounds = coq_list([coq_list([f"({coq_str(c[r][0])}, {coq_Z(c[r][2])})" for c in cols]) for r in range(n)])
+            obs = coq_list([f"({coq_str(t)}, {coq_list([coq_Z(i) for i in ins])})" for t, ins in rec])
+            terms.append(f"CRounds {coq_nat(len(cols))} {coq_nat(len(s['outs']))} {rounds} {obs}")
+        elif k in ("dot", "cart"):
+            arr = coq_list([f"({coq_str(nm)}, ({coq_N(i)}, {coq_str(t)}))" for nm, p in s["ins"].items()
+                            for (t, _, i) in by_port[p]])
+            obs = coq_list([coq_list([coq_N(i) for i in ins]) for _, ins in rec])
+            items = coq_list([coq_str(nm) for nm in s["ins"]])
+            if k == "dot":
+                terms.append(f"CDot {items} {arr} {obs}")
+            else:
+                terms.append(f"CCart {items} {coq_nat(s.get('depth', 1))} {arr} {obs}")
+        elif k == "gather" and s.get("depth", 1) == 1:
+            sp = s["ins"]["__size__"]
+            dp = next(p for nm, p in s["ins"].items() if nm != "__size__")
+            if any(not isinstance(v, int) or isinstance(v, bool) for _, v, _ in by_port[sp]):
+                continue
+            sizes = coq_list([f"({coq_str(t)}, {coq_N(v)}, {coq_N(i)})" for t, v, i in by_port[sp]])
+            elems = coq_list([f"({coq_str(t)}, {coq_N(i)})" for t, _, i in by_port[dp]])
+            obs = coq_list([f"({coq_str(t)}, {coq_list([coq_N(i) for i in ins])})" for t, ins in rec])
+            terms.append(f"CGather {sizes} {elems} {obs}")
+    return terms
+
+
 def discipline_ops(o):
     """the recorded interleaving of _persist_token phases as Begin/Save/Prov ops, or None when the recorded order
     of completions is not the allocation order (then the simple linearisation is not faithful)"""
@@ -141,6 +190,13 @@ class C07(netlib.Guarded, Prop):
         "dependee id < depender id, the relation is acyclic, every emitted token is persisted and linked to exactly "
         "the expected tokens, and no stray edge exists (C07_checker_sound). The expectations come from the property "
         "text via the tags for transformer/conditional/scatter/gather; for combinators from the step's own call. "
+        "Step level (C07_step_inputs_*): on top of the step models proved in the other areas, extended with the ids each step "
+        "passes to _persist_token, for every arrival order the recorded inputs of an emitted token are exactly what the step "
+        "consumed: ScatterStep (the scattered token), Transformer/ConditionalStep rounds (one token per input port, all of "
+        "the tag), GatherStep (the size token and every element of the key, once), flat dot product and cartesian product "
+        "(the tokens of the combination), LoopOutputStep policy all; the logged _persist_token calls of the real steps are "
+        "fed through these models (kind stepprov). ExecuteStep/ScheduleStep/TransferStep/InputInjectorStep, list-merge, "
+        "DefaultTransformer stay per-run only; ExecuteStep's job/tag pairing has a refutation witness. "
         "Additionally a theorem about the writing discipline of _persist_token (get_entity_ids, then save, then "
         "add_provenance, arbitrarily interleaved between steps): every edge ever written goes from an older to a "
         "newer allocated id, for all interleavings; the recorded interleavings of real runs are replayed through "
@@ -531,7 +587,11 @@ class _Two(C07):
         if a is None or c["f"] == "recov":
             return a
         b = super().coq_case({**c, "_disc": True}, o)
-        return a if b is None else f"CAnd ({a}) ({b})"
+        t = a if b is None else f"CAnd ({a}) ({b})"
+        o2 = self.resolve(c, o)
+        for x in (stepprov_terms(c, o2) if o2 else []):
+            t = f"CAnd ({t}) ({x})"
+        return t
 
 
 PROP = _Two()
